@@ -632,6 +632,8 @@ def to_coq(c, o):
     k = c["kind"]
     st = o["steps"]
     ev = c["ev"]
+    if any(v is None for v in ev.values()):
+        raise ValueError("an option value was shrunk away")     # keeps the shrinker from degenerating the case
     x = bytes(ev.get("x") or [])
     if len(x) > LONG and k in ("base16", "base64", "gzip", "zlib", "zstd", "snappy", "lz4", "lz4frame"):
         return "CDirect %s" % coq_bool(direct_ok(c, o))
